@@ -31,7 +31,9 @@ Templates == <<
   [name |-> "zero-shots", t |-> "sum",  op |-> <<Tm({0}, 2), Tm({1}, 1)>>,          ones |-> {0},    shots |-> 0, w |-> 2],
   \* an operator is a LIST of terms: the same support may occur twice with different coefficients, constants may repeat
   [name |-> "meas-dup",   t |-> "sum",  op |-> <<Tm({0}, 2), Tm({1}, 1), Tm({0}, 3)>>, ones |-> {0},  shots |-> 2, w |-> 2],
-  [name |-> "meas-2const", t |-> "sum", op |-> <<Tm({}, 1), Tm({0, 1}, 1), Tm({}, 2)>>, ones |-> {1}, shots |-> 3, w |-> 2] >>
+  [name |-> "meas-2const", t |-> "sum", op |-> <<Tm({}, 1), Tm({0, 1}, 1), Tm({}, 2)>>, ones |-> {1}, shots |-> 3, w |-> 2],
+  \* a zero-shot task whose NON-constant operator carries an identity term: it yields zero, not its offset
+  [name |-> "zero-shots-offset", t |-> "sum", op |-> <<Tm({0}, 2), Tm({1, 2}, 3), Tm({}, -1)>>, ones |-> {2}, shots |-> 0, w |-> 3] >>
 Scaled(tpl, p) == [tpl EXCEPT !.op = [i \in 1..Len(tpl.op) |-> Tm(tpl.op[i].sup, tpl.op[i].c * p)]]
 
 IsConstant(task) == \A i \in 1..Len(task.op) : task.op[i].sup = {}          \* also the empty sum
